@@ -4,56 +4,61 @@ package main
 
 func registry() map[string]*Rule {
 	rules := []*Rule{
-		{Name: "TX1", Floor: 10, Run: ruleTX1, Doc: "every transaction opener tests Begin's error and defers Rollback on the same transaction value so that the defer dominates every other use and every exit"},
-		{Name: "TX2", Floor: 10, Run: ruleTX2, Doc: "in a write-transaction opener, every return that a store write may precede returns tx.Commit() itself or a provably non-nil error; nothing uses the transaction after Commit"},
-		{Name: "TX3", Floor: 15, Run: ruleTX3, Doc: "every exported operation opens at most one write transaction on any path, never in a loop, and never while holding another"},
-		{Name: "TX4", Floor: 10, Run: ruleTX4, Doc: "every transaction reachable from a public read operation is Begin(false), or no Commit is reachable from that operation"},
-		{Name: "ERR1", Floor: 30, Run: ruleERR1, Doc: "every error-returning call in the library has its error examined or propagated (deferred Rollback/Close cleanups excepted)"},
-		{Name: "ERR2", Floor: 10, Run: ruleERR2, Doc: "from a branch on which an error value is known non-nil, no return of a nil error is reachable, except under errors.Is(err, ErrStopIteration | badger.ErrKeyNotFound)"},
-		{Name: "ERR3", Floor: 3, Run: ruleERR3, Doc: "every loop that hands elements to an error-returning callback tests the error, leaves the loop when it is non-nil, and translates the stop sentinel into a nil return"},
-		{Name: "KEY1", Floor: 6, Run: ruleKEY1, Doc: "every key template used as a scan bound (Seek / HasPrefix / TrimPrefix) ends in a literal delimiter or a self-delimiting encoding, never in a name"},
-		{Name: "KEY2", Floor: 8, Run: ruleKEY2, Doc: "key layouts are pairwise distinct, every variable part is ';'-terminated, and each scan bound covers exactly one layout"},
-		{Name: "KEY3", Floor: 5, Run: ruleKEY3, Doc: "per key layout: what is read or deleted is also written under the identical layout, and what is written is read or scanned"},
-		{Name: "KEY4", Floor: 2, Run: ruleKEY4, Doc: "in index keys the type rank precedes the encoded value, is delimited, and both derive from the same value"},
-		{Name: "VIS1", Floor: 8, Run: ruleVIS1, Doc: "every value a criteria visitor returns satisfies every unchecked type assertion made on that visitor's results; nil only under the visitor's error-flag idiom with every assertion guarded"},
-		{Name: "NIL1", Floor: 8, Run: ruleNIL1, Doc: "the pointer result of a (ptr, error) function that can return (nil, err) is dereferenced only behind the err == nil / ptr != nil test"},
-		{Name: "OPS1", Floor: 8, Run: ruleOPS1, Doc: "every operator constant the library constructs has a case in UnaryCriteria.Satisfy, and operators routed to a helper are covered by its inner switch"},
-		{Name: "OPS2", Floor: 3, Run: ruleOPS2, Doc: "for each operator, the static type the builders store in Value equals the type the evaluator asserts unchecked"},
-		{Name: "PANIC1", Floor: 3, Run: rulePANIC1, Doc: "every explicit panic site is tied to the rule that makes it unreachable; a new one is undecided"},
-		{Name: "IDX1", Floor: 4, Run: ruleIDX1, Doc: "every document-record write is dominated by index additions for the same document, every document-record delete by index removals, over the index set built from the catalog metadata of the same transaction"},
-		{Name: "IDX2", Floor: 2, Run: ruleIDX2, Doc: "the document passed to a user updater is not read afterwards to locate the old index entries"},
-		{Name: "IDX3", Floor: 3, Run: ruleIDX3, Doc: "the collection counter changes only with evidence (len of the documents saved here; a successful key lookup; a counter incremented next to each delete) and the metadata is written back on every success path"},
-		{Name: "IDX4", Floor: 6, Run: ruleIDX4, Doc: "no consumer of a live scan performs destructive store writes (snapshot-then-apply); insert-only writes only under a criteria-less NewQuery scan; the updater runs at loop depth <= 1"},
-		{Name: "ID1", Floor: 3, Run: ruleID1, Doc: "a document record is written under a key built from its own ObjectId(), or behind an equality test between its ObjectId() and the id the key was built from"},
-		{Name: "ID2", Floor: 4, Run: ruleID2, Doc: "Tx.Set of a document is reached only after document.Validate accepted it; every save is behind a nil test of Tx.Get on the same key or saves scan-produced documents"},
+		{Name: "TX1", Floor: 6, Run: ruleTX1, Doc: "every transaction opener tests Begin's error and defers Rollback on the same transaction value so that the defer dominates every other use and every exit"},
+		{Name: "TX2", Floor: 6, Run: ruleTX2, Doc: "in a write-transaction opener, every return that a store write may precede returns tx.Commit() itself or a provably non-nil error; nothing uses the transaction after Commit"},
+		{Name: "TX3", Floor: 8, Run: ruleTX3, Doc: "every exported operation opens at most one write transaction on any path, never in a loop, and never while holding another"},
+		{Name: "TX4", Floor: 6, Run: ruleTX4, Doc: "every transaction reachable from a public read operation is Begin(false), or no Commit is reachable from that operation"},
+		{Name: "ERR1", Floor: 20, Run: ruleERR1, Doc: "every error-returning call in the library has its error examined or propagated (deferred Rollback/Close cleanups excepted)"},
+		{Name: "ERR2", Floor: 6, Run: ruleERR2, Doc: "from a branch on which an error value is known non-nil, no return of a nil error is reachable, except under errors.Is(err, ErrStopIteration | badger.ErrKeyNotFound)"},
+		{Name: "ERR3", Floor: 2, Run: ruleERR3, Doc: "every loop that hands elements to an error-returning callback tests the error, leaves the loop when it is non-nil, and translates the stop sentinel into a nil return"},
+		{Name: "KEY1", Floor: 4, Run: ruleKEY1, Doc: "every key template used as a scan bound (Seek / HasPrefix / TrimPrefix) ends in a literal delimiter or a self-delimiting encoding, never in a name"},
+		{Name: "KEY2", Floor: 6, Run: ruleKEY2, Doc: "key layouts are pairwise distinct, every variable part is ';'-terminated, and each scan bound covers exactly one layout"},
+		{Name: "KEY3", Floor: 3, Run: ruleKEY3, Doc: "per key layout: what is read or deleted is also written under the identical layout, and what is written is read or scanned"},
+		{Name: "KEY4", Floor: 1, Run: ruleKEY4, Doc: "in index keys the type rank precedes the encoded value, is delimited, and both derive from the same value"},
+		{Name: "VIS1", Floor: 6, Run: ruleVIS1, Doc: "every value a criteria visitor returns satisfies every unchecked type assertion made on that visitor's results; nil only under the visitor's error-flag idiom with every assertion guarded"},
+		{Name: "NIL1", Floor: 5, Run: ruleNIL1, Doc: "the pointer result of a (ptr, error) function that can return (nil, err) is dereferenced only behind the err == nil / ptr != nil test"},
+		{Name: "OPS1", Floor: 6, Run: ruleOPS1, Doc: "every operator constant the library constructs has a case in UnaryCriteria.Satisfy, and operators routed to a helper are covered by its inner switch"},
+		{Name: "OPS2", Floor: 2, Run: ruleOPS2, Doc: "for each operator, the static type the builders store in Value equals the type the evaluator asserts unchecked"},
+		{Name: "PANIC1", Floor: 2, Run: rulePANIC1, Doc: "every explicit panic site is tied to the rule that makes it unreachable; a new one is undecided"},
+		{Name: "IDX1", Floor: 3, Run: ruleIDX1, Doc: "every document-record write is dominated by index additions for the same document, every document-record delete by index removals, over the index set built from the catalog metadata of the same transaction"},
+		{Name: "IDX2", Floor: 1, Run: ruleIDX2, Doc: "the document passed to a user updater is not read afterwards to locate the old index entries"},
+		{Name: "IDX3", Floor: 2, Run: ruleIDX3, Doc: "the collection counter changes only with evidence (len of the documents saved here; a successful key lookup; a counter incremented next to each delete) and the metadata is written back on every success path"},
+		{Name: "IDX4", Floor: 4, Run: ruleIDX4, Doc: "no consumer of a live scan performs destructive store writes (snapshot-then-apply); insert-only writes only under a criteria-less NewQuery scan; the updater runs at loop depth <= 1"},
+		{Name: "ID1", Floor: 2, Run: ruleID1, Doc: "a document record is written under a key built from its own ObjectId(), or behind an equality test between its ObjectId() and the id the key was built from"},
+		{Name: "ID2", Floor: 3, Run: ruleID2, Doc: "Tx.Set of a document is reached only after document.Validate accepted it; every save is behind a nil test of Tx.Get on the same key or saves scan-produced documents"},
 		{Name: "ID3", Floor: 1, Run: ruleID3, Doc: "a generated _id is assigned only when _id is absent or empty"},
-		{Name: "PLAN1", Floor: 4, Run: rulePLAN1, Doc: "every candidate an input node emits is guarded by filter == nil || filter.Satisfy(doc) on the same document, and every input node is built with filter = Criteria() of the query being planned"},
-		{Name: "PLAN2", Floor: 2, Run: rulePLAN2, Doc: "Range.Intersect is reached only where the visited node is known to be LogicalAnd; a range visitor returns no range for a non-conjunction"},
-		{Name: "PLAN3", Floor: 5, Run: rulePLAN3, Doc: "the negation push-down never returns an unvisited child, and the range visitor derives nothing under Not"},
+		{Name: "PLAN1", Floor: 2, Run: rulePLAN1, Doc: "every candidate an input node emits is guarded by filter == nil || filter.Satisfy(doc) on the same document, and every input node is built with filter = Criteria() of the query being planned"},
+		{Name: "PLAN2", Floor: 1, Run: rulePLAN2, Doc: "Range.Intersect is reached only where the visited node is known to be LogicalAnd; a range visitor returns no range for a non-conjunction"},
+		{Name: "PLAN3", Floor: 3, Run: rulePLAN3, Doc: "the negation push-down never returns an unvisited child, and the range visitor derives nothing under Not"},
 		{Name: "PLAN4", Floor: 2, Run: rulePLAN4, Doc: "in the plan builder no SetNext edge leads from the skip/limit node to a sort node or out of the consumer node"},
 		{Name: "PLAN5", Floor: 2, Run: rulePLAN5, Doc: "every value stored into Query.sortOpts is nil, copied from a query, or built only from literals with Direction = +-1"},
-		{Name: "PLAN6", Floor: 8, Run: rulePLAN6, Doc: "the negation table (Not over comparison -> complement) and the comparison->range table equal the mathematically fixed tables, row by row"},
+		{Name: "PLAN6", Floor: 6, Run: rulePLAN6, Doc: "the negation table (Not over comparison -> complement) and the comparison->range table equal the mathematically fixed tables, row by row"},
 		{Name: "CMP1", Floor: 30, Run: ruleCMP1, Doc: "TypeId, evaluated by type-tag abstract interpretation for the nine canonical types, yields single-digit ranks in the order nil < number < string < object < array < bool < time (numbers share one rank)"},
-		{Name: "CMP2", Floor: 4, Run: ruleCMP2, Doc: "functions reachable from the comparators contain no subtraction of unbounded integers and no unguarded 64-bit sign conversion"},
+		{Name: "CMP2", Floor: 3, Run: ruleCMP2, Doc: "functions reachable from the comparators contain no subtraction of unbounded integers and no unguarded 64-bit sign conversion"},
 		{Name: "CMP3", Floor: 90, Run: ruleCMP3, Doc: "for every pair of canonical dynamic types, abstract evaluation of Compare ends in a return on every path (no failing unchecked assertion, no panic) and different classes are ordered by rank alone; OrderedCode and IsNumber handle every canonical type"},
-		{Name: "CMP4", Floor: 4, Run: ruleCMP4, Doc: "in package query every operand of internal.Compare is a document value or a result of internal.Normalize"},
-		{Name: "CMP5", Floor: 20, Run: ruleCMP5, Doc: "Normalize's kind switch covers every numeric width, string, bool, struct, map, slice and array and returns the canonical type for each; every return is canonical, nil, or a listed pass-through; Document.Set touches the document only when normalisation succeeded"},
+		{Name: "CMP4", Floor: 2, Run: ruleCMP4, Doc: "in package query every operand of internal.Compare is a document value or a result of internal.Normalize"},
+		{Name: "CMP5", Floor: 15, Run: ruleCMP5, Doc: "Normalize's kind switch covers every numeric width, string, bool, struct, map, slice and array and returns the canonical type for each; every return is canonical, nil, or a listed pass-through; Document.Set touches the document only when normalisation succeeded"},
 		{Name: "COD1", Floor: 3, Run: ruleCOD1, Doc: "the time wrapper is unreachable from Decode, the unwrapper from Encode, and each transformer recurses into itself"},
-		{Name: "COD2", Floor: 3, Run: ruleCOD2, Doc: "the library uses only msgpack.Marshal/Unmarshal/RegisterExt (default, type-preserving configuration)"},
+		{Name: "COD2", Floor: 2, Run: ruleCOD2, Doc: "the library uses only msgpack.Marshal/Unmarshal/RegisterExt (default, type-preserving configuration)"},
 		{Name: "ADP1", Floor: 1, Run: ruleADP1, Doc: "every store.Tx.Get implementation maps the backend's not-found outcome to (nil, nil) before the generic error test"},
-		{Name: "ADP2", Floor: 8, Run: ruleADP2, Doc: "no method of a store.Cursor implementation branches on the value component of the backend cursor position or of store.Item"},
-		{Name: "IMM1", Floor: 8, Run: ruleIMM1, Doc: "every store to a field of Query/UnaryCriteria/BinaryCriteria/NotCriteria targets an object allocated (literal or copy()) in the same function"},
-		{Name: "IMM2", Floor: 4, Run: ruleIMM2, Doc: "DB fields are written only during construction or through sync/atomic (and then read atomically); no package-level variable is written after init; go statements are inventoried"},
-		{Name: "GUARD1", Floor: 10, Run: ruleGUARD1, Doc: "in every operation naming a collection or query, the first store access after Begin on every path is the catalog lookup"},
-		{Name: "IDX5", Floor: 3, Run: ruleIDX5, Doc: "index creation writes the catalog after feeding a criteria-less scan into the new index; index drop drops entries before rewriting the catalog; collection drop bulk-deletes before deleting the catalog key"},
-		{Name: "ADP3", Floor: 10, Run: ruleADP3, Doc: "backend (bbolt/badger) APIs are called only inside the store adapter packages"},
+		{Name: "ADP2", Floor: 4, Run: ruleADP2, Doc: "no method of a store.Cursor implementation branches on the value component of the backend cursor position or of store.Item"},
+		{Name: "IMM1", Floor: 5, Run: ruleIMM1, Doc: "every store to a field of Query/UnaryCriteria/BinaryCriteria/NotCriteria targets an object allocated (literal or copy()) in the same function"},
+		{Name: "IMM2", Floor: 3, Run: ruleIMM2, Doc: "DB fields are written only during construction or through sync/atomic (and then read atomically); no package-level variable is written after init; go statements are inventoried"},
+		{Name: "GUARD1", Floor: 6, Run: ruleGUARD1, Doc: "in every operation naming a collection or query, the first store access after Begin on every path is the catalog lookup"},
+		{Name: "IDX5", Floor: 2, Run: ruleIDX5, Doc: "index creation writes the catalog after feeding a criteria-less scan into the new index; index drop drops entries before rewriting the catalog; collection drop bulk-deletes before deleting the catalog key"},
+		{Name: "ADP3", Floor: 4, Run: ruleADP3, Doc: "backend (bbolt/badger) APIs are called only inside the store adapter packages"},
 		{Name: "OPS3", Floor: 2, Run: ruleOPS3, Doc: "Neq is Not(Eq) and NotExists is Not(Exists), built on the builder's own arguments"},
-		{Name: "KEY5", Floor: 2, Run: ruleKEY5, Doc: "specialised on reverse = true, every Cursor.Seek target in a scan function ends in the 0xFF upper sentinel"},
-		{Name: "IDX6", Floor: 4, Run: ruleIDX6, Doc: "index maintenance is unconditional per (document, index): every iteration of a loop over the indexes reaches Index.Add/Remove, and a per-document build callback cannot return success without it"},
-		{Name: "PLAN7", Floor: 2, Run: rulePLAN7, Doc: "the flag that elides the in-memory sort is set only where the query has exactly one sort option and its field equals the field of the index scanned"},
+		{Name: "KEY5", Floor: 1, Run: ruleKEY5, Doc: "specialised on reverse = true, every Cursor.Seek target in a scan function ends in the 0xFF upper sentinel"},
+		{Name: "IDX6", Floor: 2, Run: ruleIDX6, Doc: "index maintenance is unconditional per (document, index): every iteration of a loop over the indexes reaches Index.Add/Remove, and a per-document build callback cannot return success without it"},
+		{Name: "PLAN7", Floor: 1, Run: rulePLAN7, Doc: "the flag that elides the in-memory sort is set only where the query has exactly one sort option and its field equals the field of the index scanned"},
 		{Name: "CG1", Floor: 0, Run: ruleCG1, Doc: "thorough tier: every library target the whole-program VTA call graph finds for a dynamic call site is accounted for by the effect summaries"},
-		{Name: "ADP4", Floor: 5, Run: ruleADP4, Doc: "byte slices handed to Tx.Set/Tx.Delete are not built on a reused buffer (struct field or package variable): badger retains them until Commit, bbolt copies"},
-		{Name: "KEY6", Floor: 3, Run: ruleKEY6, Doc: "every item passed to orderedcode.Append is self-delimiting (never TrailingString), since keys continue after the encoded value"},
+		{Name: "ADP4", Floor: 3, Run: ruleADP4, Doc: "byte slices handed to Tx.Set/Tx.Delete are not built on a reused buffer (struct field or package variable): badger retains them until Commit, bbolt copies"},
+		{Name: "KEY6", Floor: 1, Run: ruleKEY6, Doc: "every item passed to orderedcode.Append is self-delimiting (never TrailingString), since keys continue after the encoded value"},
+		{Name: "CMP6", Floor: 1, Run: ruleCMP6, Doc: "in struct normalisation the store under the field's own name is reached only for non-anonymous fields or anonymous fields that did not normalise to a map (embedded flattening is unconditional otherwise)"},
+		{Name: "PLAN8", Floor: 1, Run: rulePLAN8, Doc: "the criteria->range table is consulted only behind the false edge of a field-reference predicate (Field(..) or \"$name\") on the same criteria's operand"},
+		{Name: "NIL2", Floor: 2, Run: ruleNIL2, Doc: "the pointer result of a library function that can return (nil, nil) is nil-tested before it is dereferenced or passed on"},
+		{Name: "IMP1", Floor: 1, Run: ruleIMP1, Doc: "ImportCollection converts decoded JSON objects with NewDocumentOf (verbatim keys), never through Document.Set/SetAll (dotted-path semantics)"},
+		{Name: "BULK1", Floor: 1, Run: ruleBULK1, Doc: "a function that scans and then mutates destructively scans exactly the query it was given (criteria replacement by Where only)"},
 	}
 	m := map[string]*Rule{}
 	for _, r := range rules {
@@ -88,14 +93,14 @@ func propertyTable() map[string]*Property {
 		},
 		"C02": {
 			Technique:   tSSA + "SSA guard analysis of the planner (re-filter, And-only intersection, negation push-down closure), finite table extraction, index-maintenance dominance, key-template analysis",
-			Rules:       []string{"PLAN1", "PLAN2", "PLAN3", "PLAN6", "PLAN7", "IDX1", "IDX2", "IDX6", "KEY1", "KEY2", "KEY3", "KEY5", "VIS1"},
+			Rules:       []string{"PLAN1", "PLAN2", "PLAN3", "PLAN6", "PLAN7", "PLAN8", "IDX1", "IDX2", "IDX6", "KEY1", "KEY2", "KEY3", "KEY5", "VIS1"},
 			Explanation: "Decides structural clauses of C02: index candidates are always re-checked against the full criteria (PLAN1); ranges of the two sides are intersected only under a conjunction and no range is produced for a disjunction or below a surviving negation (PLAN2, PLAN3); the negation push-down never returns an unvisited child (PLAN3); the two finite tables Not(op)->complement and op->range equal the mathematical ones row by row (PLAN6, decided completely); index entries follow every document write/delete, and old entries are located before a user updater may mutate the document (IDX1, IDX2); an index scan sees exactly its own entries and add/remove use one key layout (KEY1-KEY3); planning visitors cannot return a value their callers' unchecked assertions reject (VIS1).",
 			NotDecided:  "That a derived range contains every matching value for all values (nil bounds, Range.IsEmpty, inclusive ends in reverse scans), and that sort elision is taken only when the index order equals the requested order. Value-level.",
 			Assumptions: commonAssumptions,
 		},
 		"C03": {
 			Technique:   tSSA + "effect summaries over closures passed to scans (snapshot-then-apply), cursor-adapter branch analysis, transaction rules",
-			Rules:       []string{"IDX4", "ADP2", "TX2~^DB\\.(UpdateFunc|Delete|DropCollection)/", "TX3~^DB\\.(Update|UpdateFunc|Delete|DropCollection)/", "IDX1~replaceDocs", "IDX2~replaceDocs"},
+			Rules:       []string{"IDX4", "ADP2", "TX2~^DB\\.(UpdateFunc|Delete|DropCollection)/", "TX3~^DB\\.(Update|UpdateFunc|Delete|DropCollection)/", "IDX1~replaceDocs", "IDX2~replaceDocs", "BULK1"},
 			Explanation: "Decides structural clauses of C03: no consumer of a live scan performs a destructive store write, i.e. the query is evaluated completely before the first update/delete is applied, and the updater runs at loop depth <= 1 on the collected documents (IDX4); cursor validity on either backend never depends on an entry's value, so entries with empty values do not end a traversal (ADP2); the bulk operation is one committed transaction (TX2, TX3) and maintains every index for each document it rewrites (IDX1, IDX2).",
 			NotDecided:  "B+tree/LSM cursor behaviour itself, page layouts and collection sizes (runtime quantities; once IDX4 holds they no longer matter for the bulk path); that the set collected equals FindAll's for all data.",
 			Assumptions: commonAssumptions,
@@ -200,21 +205,21 @@ func propertyTable() map[string]*Property {
 		},
 		"C18": {
 			Technique:   tSSA + "reflect.Kind switch table extraction and return-type classification of Normalize",
-			Rules:       []string{"CMP5"},
-			Explanation: "Decides structural clauses of C18: Normalize's kind switch has a case for every integer width, both floats, string, bool, struct, map, slice and array, and the value returned under each case has the canonical static type (signed->int64, unsigned->uint64, floats->float64, struct/map->map[string]interface{}, slice/array->[]interface{}); every other return is nil or a pass-through pinned by clover's own tests; Document.Set touches the document only when normalisation succeeded (an unsupported value leaves it unchanged).",
+			Rules:       []string{"CMP5", "CMP6"},
+			Explanation: "Decides structural clauses of C18: Normalize's kind switch has a case for every integer width, both floats, string, bool, struct, map, slice and array, and the value returned under each case has the canonical static type (signed->int64, unsigned->uint64, floats->float64, struct/map->map[string]interface{}, slice/array->[]interface{}); every other return is nil or a pass-through pinned by clover's own tests; Document.Set touches the document only when normalisation succeeded (an unsupported value leaves it unchanged) (CMP5); whether an embedded field is flattened is decided by Anonymous and by its normalised value being an object, nothing else (CMP6).",
 			NotDecided:  "Idempotence, Set/Get/Has path laws, struct round trips, pointer following (DESIGN §6 lists a pointer-to-time defect out of reach).",
 			Assumptions: commonAssumptions,
 		},
 		"C19": {
 			Technique:   tSSA + "read-operation transaction rule, one-transaction rule for the import composite, guard and error rules",
-			Rules:       []string{"TX4~ExportCollection", "TX3~(ImportCollection|ExportCollection)", "GUARD1~(ImportCollection|HasCollection|IterateDocs)", "ERR1~(ImportCollection|ExportCollection|insertDocs|createCollection)"},
+			Rules:       []string{"TX4~ExportCollection", "TX3~(ImportCollection|ExportCollection)", "GUARD1~(ImportCollection|HasCollection|IterateDocs)", "ERR1~(ImportCollection|ExportCollection|insertDocs|createCollection)", "IMP1"},
 			Explanation: "Decides structural clauses of C19: ExportCollection reaches only read-only transactions, so it cannot modify the source (TX4); ImportCollection is one write transaction that creates and fills the collection, so a failing import (existing name, invalid document, store error) commits nothing (TX3, with TX1/TX2 through C04); the existence check comes first and no error on the way is dropped (GUARD1, ERR1).",
 			NotDecided:  "Value equality after JSON typing; file-system failures while writing the export file.",
 			Assumptions: commonAssumptions,
 		},
 		"C20": {
 			Technique:   tSSA + "unchecked-assertion/visitor-return agreement, nil-dereference guards, type-tag abstract interpretation for dispatch panics, explicit panic inventory, transaction leak rules",
-			Rules:       []string{"VIS1", "NIL1", "OPS1", "OPS2", "CMP3", "CMP4", "CMP5", "PANIC1", "TX1", "TX3~no-nested-transaction"},
+			Rules:       []string{"VIS1", "NIL1", "NIL2", "PLAN8", "OPS1", "OPS2", "CMP3", "CMP4", "CMP5", "PANIC1", "TX1", "TX3~no-nested-transaction"},
 			Explanation: "Decides structural clauses of C20: no visitor returns a value its callers' unchecked assertions reject (VIS1); no (nil, err) result is dereferenced before the error test (NIL1); no constructible operator falls into a panic or a mismatching assertion (OPS1, OPS2); the type dispatch of Compare/OrderedCode reaches no failing assertion for any pair of canonical types and only normalised operands arrive (CMP3, CMP4, CMP5); every explicit panic site is tied to the rule that makes it unreachable (PANIC1); no transaction is leaked or nested, the two ways to block for ever (TX1, TX3).",
 			NotDecided:  "Absence of every runtime panic (index/slice bounds inside dependencies, the regexp engine, a null element in an import file), and behaviour after Close on custom stores.",
 			Assumptions: commonAssumptions,
